@@ -210,7 +210,11 @@ def run(ctx):
         jobs.append((name, flags, None, "true_prob_order"))
         for n in sorted(x for x in ns if x >= 1):
             jobs.append((name, flags, n, "true_prob_order"))
-        if (r - 1) % 2 == 0:
+        # the sampling modes draw a base structure per word and discard every draw that lands on the Markov structure: with (almost)
+        # all of the mass on M a session does not end in any reasonable time - termination there is probabilistic and not claimed
+        # (DESIGN C16); a first version of this check asked for N words from a ruleset with M at 1.0 and A4 at 7e-320
+        nonmarkov_mass = sum(b["prob"] for b in g.base if "M" not in b["replacements"])
+        if (r - 1) % 2 == 0 and nonmarkov_mass >= 0.2:
             for mode in ("random_walk", "honeywords"):
                 jobs.append((name, flags, ctx.rng.randint(1, 12), mode))
             jobs.append((name, flags, 5, "random_walk"))
@@ -350,6 +354,10 @@ def replay(ctx, data):
     env["PYTHONPATH"] = code
     rulesets.write_ruleset(rs, os.path.join(code, "Rules", rs["name"]))
     flags, n, mode = inp.get("flags", []), inp.get("n"), inp.get("mode", "true_prob_order")
+    if mode != "true_prob_order":
+        g_ = impl_next.load_grammar(rs, common.scratch(), "--skip_brute" in flags, "--all_lower" in flags)
+        if sum(b["prob"] for b in g_.base if "M" not in b["replacements"]) < 0.2:
+            return []       # outside what is claimed for the sampling modes (see run())
     full = cli(code, env, ["-r", rs["name"], "-s", "rp"] + flags + ["-m", mode]) if mode == "true_prob_order" else b""
     got = cli(code, env, ["-r", rs["name"], "-s", "rp2"] + flags + (["-n", str(n)] if n else []) + ["-m", mode])
     gl = got.decode("utf-8", "replace").split("\n")[:-1]
